@@ -39,7 +39,9 @@ Inductive body := BPlain (a : list act) (r : res) | BGen (segs : list seg).
 Definition prog := evk -> list body.          (* handlers of an event, in priority order *)
 
 (* what the second thread does while the loop idles in FallBackGenerator *)
-Inductive xact := XNop | XFire (n : nat) | XStop (c : option Z).
+(* late = true: the stopping thread is pre-empted right after its fire(stopped) has woken the loop and does
+   not execute the next statement of stop() before run() has returned (the other extreme of the schedule) *)
+Inductive xact := XNop | XFire (n : nat) | XStop (late : bool) (c : option Z).
 
 Inductive tr :=
 | TFire (k : evk)                    (* ghost: event appended to the queue *)
@@ -52,7 +54,8 @@ Inductive tr :=
 | TWait (inf : bool)                 (* FallBackGenerator waits (inf: without time limit) *)
 | TTick
 | TOut (c : option (option Z))       (* run()/top-level stop() returned (None) or raised SystemExit c (Some c) *)
-| TLen (n : nat).                    (* len(manager) observed by the harness *)
+| TLen (n : nat)                     (* len(manager) observed by the harness *)
+| TLate.                             (* the stopping second thread is pre-empted after fire(stopped) *)
 
 Definition task := (nat * nat * list seg)%type.     (* generator id, next step index, remaining steps *)
 
@@ -63,23 +66,26 @@ Record st := mk {
   sched : list (list nat);             (* order in which the task set is iterated, one entry per tick *)
   ext : list xact;
   trace : list tr;
+  pend : option (option Z);            (* a stopping second thread pre-empted right after fire(stopped): the
+                                          rest of its stop(code) runs once run() has returned *)
   bad : bool }.                        (* depth fuel exhausted / pop from an empty heap *)
 
-Definition set_running v s := mk v (executing s) (xcode s) (fifo s) (heap s) (batch s) (tasks s) (nextg s) (sched s) (ext s) (trace s) (bad s).
-Definition set_executing v s := mk (running s) v (xcode s) (fifo s) (heap s) (batch s) (tasks s) (nextg s) (sched s) (ext s) (trace s) (bad s).
-Definition set_xcode v s := mk (running s) (executing s) v (fifo s) (heap s) (batch s) (tasks s) (nextg s) (sched s) (ext s) (trace s) (bad s).
-Definition set_fifo v s := mk (running s) (executing s) (xcode s) v (heap s) (batch s) (tasks s) (nextg s) (sched s) (ext s) (trace s) (bad s).
-Definition set_heap v s := mk (running s) (executing s) (xcode s) (fifo s) v (batch s) (tasks s) (nextg s) (sched s) (ext s) (trace s) (bad s).
-Definition set_batch v s := mk (running s) (executing s) (xcode s) (fifo s) (heap s) v (tasks s) (nextg s) (sched s) (ext s) (trace s) (bad s).
-Definition set_tasks v s := mk (running s) (executing s) (xcode s) (fifo s) (heap s) (batch s) v (nextg s) (sched s) (ext s) (trace s) (bad s).
-Definition set_nextg v s := mk (running s) (executing s) (xcode s) (fifo s) (heap s) (batch s) (tasks s) v (sched s) (ext s) (trace s) (bad s).
-Definition set_sched v s := mk (running s) (executing s) (xcode s) (fifo s) (heap s) (batch s) (tasks s) (nextg s) v (ext s) (trace s) (bad s).
-Definition set_ext v s := mk (running s) (executing s) (xcode s) (fifo s) (heap s) (batch s) (tasks s) (nextg s) (sched s) v (trace s) (bad s).
-Definition set_trace v s := mk (running s) (executing s) (xcode s) (fifo s) (heap s) (batch s) (tasks s) (nextg s) (sched s) (ext s) v (bad s).
-Definition set_bad s := mk (running s) (executing s) (xcode s) (fifo s) (heap s) (batch s) (tasks s) (nextg s) (sched s) (ext s) (trace s) true.
+Definition set_running v s := mk v (executing s) (xcode s) (fifo s) (heap s) (batch s) (tasks s) (nextg s) (sched s) (ext s) (trace s) (pend s) (bad s).
+Definition set_executing v s := mk (running s) v (xcode s) (fifo s) (heap s) (batch s) (tasks s) (nextg s) (sched s) (ext s) (trace s) (pend s) (bad s).
+Definition set_xcode v s := mk (running s) (executing s) v (fifo s) (heap s) (batch s) (tasks s) (nextg s) (sched s) (ext s) (trace s) (pend s) (bad s).
+Definition set_fifo v s := mk (running s) (executing s) (xcode s) v (heap s) (batch s) (tasks s) (nextg s) (sched s) (ext s) (trace s) (pend s) (bad s).
+Definition set_heap v s := mk (running s) (executing s) (xcode s) (fifo s) v (batch s) (tasks s) (nextg s) (sched s) (ext s) (trace s) (pend s) (bad s).
+Definition set_batch v s := mk (running s) (executing s) (xcode s) (fifo s) (heap s) v (tasks s) (nextg s) (sched s) (ext s) (trace s) (pend s) (bad s).
+Definition set_tasks v s := mk (running s) (executing s) (xcode s) (fifo s) (heap s) (batch s) v (nextg s) (sched s) (ext s) (trace s) (pend s) (bad s).
+Definition set_nextg v s := mk (running s) (executing s) (xcode s) (fifo s) (heap s) (batch s) (tasks s) v (sched s) (ext s) (trace s) (pend s) (bad s).
+Definition set_sched v s := mk (running s) (executing s) (xcode s) (fifo s) (heap s) (batch s) (tasks s) (nextg s) v (ext s) (trace s) (pend s) (bad s).
+Definition set_ext v s := mk (running s) (executing s) (xcode s) (fifo s) (heap s) (batch s) (tasks s) (nextg s) (sched s) v (trace s) (pend s) (bad s).
+Definition set_trace v s := mk (running s) (executing s) (xcode s) (fifo s) (heap s) (batch s) (tasks s) (nextg s) (sched s) (ext s) v (pend s) (bad s).
+Definition set_pend v s := mk (running s) (executing s) (xcode s) (fifo s) (heap s) (batch s) (tasks s) (nextg s) (sched s) (ext s) (trace s) v (bad s).
+Definition set_bad s := mk (running s) (executing s) (xcode s) (fifo s) (heap s) (batch s) (tasks s) (nextg s) (sched s) (ext s) (trace s) (pend s) true.
 
 Definition init (sc : list (list nat)) (xs : list xact) : st :=
-  mk false false None [] [] 0 [] 0 sc xs [] false.
+  mk false false None [] [] 0 [] 0 sc xs [] None false.
 
 Definition qlen (s : st) : nat := length (fifo s) + length (heap s).     (* len(self._queue) *)
 Definition logt (x : tr) (s : st) : st := set_trace (trace s ++ [x]) s.
@@ -109,6 +115,9 @@ Definition order (entry ids : list nat) : list nat :=
 Definition is_some {A} (o : option A) : bool := match o with Some _ => true | None => false end.
 
 Section Loop.
+(* legacy_order = true: stop() as `_running = False; fire(stopped); _exit_code = code` (the code recorded AFTER
+   the wake-up of the loop) -- only used to refute that order; the code has legacy_order = false *)
+Variable legacy_order : bool.
 Variable P : prog.
 Variable ticker : st -> st.          (* tick() one nesting level further down (stop's inline ticks) *)
 
@@ -174,8 +183,16 @@ Definition do_xact (x : xact) (s : st) : st * bool :=
   match x with
   | XNop => (s, false)
   | XFire n => (fire (KUser n) s, true)
-  | XStop c => let w := running s in
-               let '(s', raised) := req_stop c s in (t2_raise c raised s', w)
+  | XStop late c =>
+      let w := running s in
+      if late && running s && executing s then
+        (* the second thread's stop(c), statement by statement, up to and including the wake-up ... *)
+        let s0 := set_running false (logt (TReq c) s) in
+        let s1 := if legacy_order then s0 else set_xcode c s0 in
+        (* ... where it is pre-empted; the loop runs on; see finish_late *)
+        (set_pend (Some c) (logt TLate (fire KStopped s1)), w)
+      else
+        let '(s', raised) := req_stop c s in (t2_raise c raised s', w)
   end.
 
 (* `while event.time_left < 0: self._continue.wait(10000)` *)
@@ -264,29 +281,42 @@ Definition tick (s : st) : st :=
 End Loop.
 
 (* tick with nesting depth d for stop()'s inline ticks *)
-Fixpoint tickd (P : prog) (d : nat) : st -> st :=
-  match d with O => set_bad | S d' => tick P (tickd P d') end.
+Fixpoint tickd (lg : bool) (P : prog) (d : nat) : st -> st :=
+  match d with O => set_bad | S d' => tick lg P (tickd lg P d') end.
 
-Fixpoint main_loop (P : prog) (d fuel : nat) (s : st) : option st :=
-  match fuel with
-  | O => None
-  | S f => if running s || (0 <? qlen s) then main_loop P d f (tickd P d s) else Some s
+(* the rest of a pre-empted second-thread stop(c), executed after run() has returned: (legacy order: record
+   the code now;) no executing thread any more -> three inline ticks in the second thread; raise SystemExit *)
+Definition finish_late (lg : bool) (P : prog) (d : nat) (s : st) : st :=
+  match pend s with
+  | None => s
+  | Some c =>
+      let s0 := set_pend None s in
+      let s1 := if lg then set_xcode c s0 else s0 in
+      let t := tickd lg P d in
+      let s2 := if executing s1 then s1 else t (t (t s1)) in
+      t2_raise c true s2
   end.
 
-Fixpoint drain (P : prog) (d fuel : nat) (s : st) : option st :=
+Fixpoint main_loop (lg : bool) (P : prog) (d fuel : nat) (s : st) : option st :=
   match fuel with
   | O => None
-  | S f => if 0 <? qlen s then drain P d f (flush P (tickd P d) s) else Some s
+  | S f => if running s || (0 <? qlen s) then main_loop lg P d f (tickd lg P d s) else Some s
+  end.
+
+Fixpoint drain (lg : bool) (P : prog) (d fuel : nat) (s : st) : option st :=
+  match fuel with
+  | O => None
+  | S f => if 0 <? qlen s then drain lg P d f (flush lg P (tickd lg P d) s) else Some s
   end.
 
 (* Manager.run(); None = out of fuel (or bad) *)
-Definition run (P : prog) (d fuel : nat) (s : st) : option (st * option Z) :=
+Definition run (lg : bool) (P : prog) (d fuel : nat) (s : st) : option (st * option Z) :=
   let s1 := fire KStarted (set_executing true (set_xcode None (set_running true s))) in
-  match main_loop P d fuel s1 with
+  match main_loop lg P d fuel s1 with
   | None => None
   | Some s2 =>
-      let t := tickd P d in
-      match drain P d fuel (t (t (t (t s2)))) with
+      let t := tickd lg P d in
+      match drain lg P d fuel (t (t (t (t s2)))) with
       | None => None
       | Some s4 => if bad s4 then None else
                    let s5 := set_executing false s4 in Some (s5, xcode s5)
@@ -302,24 +332,25 @@ Inductive op :=
 | OFlush                        (* flush() until the queue is empty *)
 | OLen.
 
-Definition exec_op (P : prog) (d fuel : nat) (o : op) (s : st) : option st :=
+Definition exec_op (lg : bool) (P : prog) (d fuel : nat) (o : op) (s : st) : option st :=
   match o with
-  | ORun => match run P d fuel s with
+  | ORun => match run lg P d fuel s with
             | None => None
-            | Some (s', c) => Some (logt (TOut (match c with Some z => Some (Some z) | None => None end)) s')
+            | Some (s', c) =>
+                Some (finish_late lg P d (logt (TOut (match c with Some z => Some (Some z) | None => None end)) s'))
             end
-  | OStop c => let '(s', raised) := req_stop (tickd P d) c s in
+  | OStop c => let '(s', raised) := req_stop (tickd lg P d) c s in
                Some (logt (TOut (if raised then Some c else None)) s')
   | OSetRunning => Some (set_running true s)
   | OFire n => Some (fire (KUser n) s)
-  | OFlush => drain P d fuel s
+  | OFlush => drain lg P d fuel s
   | OLen => Some (logt (TLen (qlen s)) s)
   end.
 
-Fixpoint exec_ops (P : prog) (d fuel : nat) (os : list op) (s : st) : option st :=
+Fixpoint exec_ops (lg : bool) (P : prog) (d fuel : nat) (os : list op) (s : st) : option st :=
   match os with
   | [] => Some s
-  | o :: r => match exec_op P d fuel o s with None => None | Some s' => exec_ops P d fuel r s' end
+  | o :: r => match exec_op lg P d fuel o s with None => None | Some s' => exec_ops lg P d fuel r s' end
   end.
 
 (* programs as association lists *)
